@@ -27,7 +27,7 @@
    Outside (A) and (B) no bound exists: zero durations with zero delays loop
    forever at one instant (last example; reproduced on the code: the call does not
    return).  That input is outside C13's domain (tied event times). *)
-From EoNV Require Import Prelude Samp Graph EventSIS C13xTerm C13xFin C13xTime.
+From EoNV Require Import Prelude Samp Graph EventSIS C13xTerm C13xFin C13xTime C13xTimeN.
 
 (* ---------------- (A) ---------------- *)
 Theorem nmsis_refines_bounded :
@@ -39,6 +39,19 @@ Theorem nmsis_refines_bounded :
       (b = true -> nm_run g dur delays tmax tmin full (nm_fuel g delays K i0) i0 = Ok out).
 Proof. exact C13xTime.nmsis_refines_bounded. Qed.
 Print Assumptions nmsis_refines_bounded.
+
+(* fast_nonMarkov_SIS itself ends on (A) when, in addition, the delay lists of the ordinals below
+   K are non-decreasing ([lists_sortedb]; the code queues the head of a list and trusts the
+   rest to be later) — inside or outside C13's domain (ties, attempts after recovery allowed).
+   Together with Props/C04esis.v, C09esis.v, C10esis.v (stated for runs that return) this makes
+   those theorems unconditional on (A). *)
+Theorem nmsis_terminates_bounded :
+  forall g dur delays tmax tmin delta K full i0,
+    graph_closedb g i0 = true -> rules_boundedb g dur delays tmax tmin delta K = true ->
+    lists_sortedb g delays K = true -> xlt tmin tmax = true ->
+    exists out, nm_run g dur delays tmax tmin full (nm_fuel g delays K i0) i0 = Ok out.
+Proof. exact C13xTimeN.nmsis_terminates_bounded. Qed.
+Print Assumptions nmsis_terminates_bounded.
 
 (* ---------------- (B) ---------------- *)
 Theorem nmsis_refines_finite :
@@ -128,6 +141,25 @@ Proof.
 Qed.
 Print Assumptions bounded_nonvacuous.
 
+(* the same tables with a tie forced (duration of node 0 := 11/64 = its first delay to 1: the
+   attempt and the recovery coincide): outside C13's domain (b = false), still inside (A), and
+   fast_nonMarkov_SIS ends within nm_fuel *)
+Definition dur3t (u : node) (k : nat) : Q := match u, k with 0%N, O => 11#64 | _, _ => dur3 u k end.
+Example bounded_terminates_outside_domain :
+  rules_boundedb g3 dur3t del3 (Some 3) 0 (11#64) 18 = true /\ lists_sortedb g3 del3 18 = true /\
+  (exists out, ref_sis g3 dur3t del3 (Some 3) 0 false (ref_fuel g3 del3 18 [0%N]) [0%N] = Ok (out, false)) /\
+  (exists out, nm_run g3 dur3t del3 (Some 3) 0 false (nm_fuel g3 del3 18 [0%N]) [0%N] = Ok out).
+Proof.
+  apply conj; [vm_compute; reflexivity|]. apply conj; [vm_compute; reflexivity|]. apply conj.
+  - destruct (nmsis_refines_bounded g3 dur3t del3 (Some 3) 0 (11#64) 18 false [0%N]) as [out [b [E1 _]]];
+      [reflexivity|vm_compute; reflexivity|reflexivity|].
+    assert (Hb : b = false) by (vm_compute in E1; injection E1 as _ <-; reflexivity).
+    subst b. exists out. exact E1.
+  - apply (nmsis_terminates_bounded g3 dur3t del3 (Some 3) 0 (11#64) 18 false [0%N]);
+      [reflexivity|vm_compute; reflexivity|vm_compute; reflexivity|reflexivity].
+Qed.
+Print Assumptions bounded_terminates_outside_domain.
+
 (* (B) with tmax = infinity: the same tables cut at ordinal 2; the epidemic dies out after
    finitely many events and the theorem gives the output of fast_nonMarkov_SIS with NO horizon *)
 Example finite_nonvacuous :
@@ -161,3 +193,22 @@ Example zero_rules_do_not_terminate_finite_check :
   (forall K, rules_boundedb g2 (fun _ _ => 0) (fun _ _ _ => [0]) (Some 1) 0 0 K = false).
 Proof. split; [vm_compute; reflexivity|intro K; reflexivity]. Qed.
 Print Assumptions zero_rules_do_not_terminate_finite_check.
+
+(* ---------------- fast_SIS as an instance (goal stated, NOT proved) ----------------
+   The law clause of C13 ("with exponential rules this coincides in law with fast_SIS") has a
+   pathwise core that can be stated over these models: for every draw script ds on which
+   fast_SIS returns out, let cs be the clock records of Props/C02fast.v [fsis_clock_structure]
+   (each expovariate call annotated KRec v s d / KAtt u v k s d rd) and define
+       dur v k      := d of the k-th record KRec v _ d,
+       delays u v k := ascending list of (s + d) - (start of u's k-th infection) over the records
+                       KAtt u v k s d _ with s + d < rec_time[u]
+   (every attempt the draws define before the source's recovery, INCLUDING the one discarded
+   because it falls inside v's infectious period — the reference ignores it for the same reason;
+   the redrawn one starts at rec_time[v], not at the discarded time, so these are not plain
+   cumulative sums).  Claim: ref_sis g dur delays tmax tmin full fuel i0 = Ok (out, true) whenever
+   the drawn times are pairwise distinct.  This needs a second simulation (m_loop against the
+   agenda with prophecy of the clocks still to be drawn) and is NOT proved here; it is CHECKED at
+   run time on the implementation: harness/c13x.py [fsis_part] rebuilds exactly these tables from
+   fast_SIS's own calls to expovariate and compares fast_SIS's arrays, histories and transmissions
+   with the independent agenda oracle on them.  What is proved about fast_SIS pathwise stays
+   Props/C02fast.v; the equality IN LAW (i.i.d. exponential gaps <=> restarted clocks) is cited. *)
